@@ -130,11 +130,19 @@ def gen_case(seed, idx):
         flags = gen.flag_args(o)
         return flags + a if r.random() < 0.7 else a + flags
 
+    # "same-name" warm-up: the defective files first exist with VALID content and are part of the warm build,
+    # so every intermediate of theirs is present and fresh when the defect arrives
+    same_name = warm and defect in ("D2", "D3", "D4") and r.random() < 0.5
     if warm:
         o_valid = dict(opts)
         if defect == "D6":
             o_valid["bitmap_resolution"] = 24
-        ops.append({"op": "invoke", "cwd": ".", "argv": argv_for(sorted(srcs), o_valid), "build_dir": "build",
+        warm_srcs = sorted(srcs)
+        if same_name:
+            for p in sorted(bad):
+                ops.append({"op": "write", "path": p, "content": "corpus:rect.svg" if not small else "corpus:one_rect.svg", "keep": True})
+            warm_srcs = sorted(list(srcs) + list(bad))
+        ops.append({"op": "invoke", "cwd": ".", "argv": argv_for(warm_srcs, o_valid), "build_dir": "build",
                     "label": "warm", "sched": gen.sched(rs), "keep": True})
     for p, c in sorted(bad.items()):
         ops.append({"op": "write", "path": p, "content": c, "keep": True})
@@ -150,7 +158,7 @@ def gen_case(seed, idx):
     job = {"id": cid + ".j0", "root_id": "c17/%d/%d" % (seed, idx), "hashseed": H(seed, "c17", idx, "hs") % 4294967296,
            "clock_seed": idx, "readdir_seed": H(seed, "c17", idx, "rd") % (1 << 31), "keep_trace": False, "ops": ops}
     return {"id": cid, "jobs": [job], "meta": {"defect": defect, "fmt": fmt, "warm": warm, "font": opts["output_file"],
-                                               "pos": pos, "n_args": len(argv), "bad": sorted(bad)}}
+                                               "pos": pos, "n_args": len(argv), "bad": sorted(bad), "same_name": same_name}}
 
 
 def gen_cases(seed, tier, scale=1.0):
@@ -213,7 +221,7 @@ def signature(case, results):
     lab = {r.get("label"): r for r in invs}
     m = case["meta"]
     posb = 0 if m["pos"] == 0 else (2 if m["pos"] >= m["n_args"] - 1 else 1)
-    return (m["defect"], m["fmt"], m["warm"], posb, _failing_rule(lab["bad1"]))
+    return (m["defect"], m["fmt"], m["warm"], m.get("same_name"), posb, _failing_rule(lab["bad1"]))
 
 
 def describe(case):
@@ -228,7 +236,7 @@ def extra_coverage(cases, results):
     per = collections.Counter()
     rule = collections.Counter()
     for c in cases:
-        per["%s/%s" % (c["meta"]["defect"], "warm" if c["meta"]["warm"] else "cold")] += 1
+        per["%s/%s" % (c["meta"]["defect"], ("warm-same-name" if c["meta"].get("same_name") else "warm") if c["meta"]["warm"] else "cold")] += 1
         lab = {r.get("label"): r for r in orch.invokes(results[c["id"]][0])}
         rule[_failing_rule(lab["bad1"])] += 1
     return {"cases_per_defect_class": dict(sorted(per.items())), "first_failing_step": dict(sorted(rule.items()))}
